@@ -1,7 +1,54 @@
-import Labella.Model.Render
+import Labella.Props.C07
+import Labella.Props.C19
+import Labella.Props.C20
+/-! # C09 — the SVG and TikZ back-ends draw the same picture
+
+Both back-ends print the geometry of ONE layout (same nodes, same `nodePos`, same path generator); they differ
+only in how numbers are printed.  The theorems bound those differences; the correspondence check parses the two real
+documents and compares them field by field. -/
 namespace Labella.C09
 open Labella Labella.Render
 
-theorem placeholder_gap (o : ROpt) : gapOf o = o.layerGap + o.nodeHeight := rfl
+/-- `"%f"` (TikZ dots) and `"%.8f"` (link points, both back-ends) are within half a unit of the last printed decimal of
+the number: a dot printed in full by SVG and with six decimals by TikZ differs by at most 5·10⁻⁷ -/
+theorem fixed_close (d : Nat) (x : ℚ) : |fixedValue d x - x| ≤ 1 / (2 * (10 : ℚ) ^ d) := by
+  have hp : (0 : ℚ) < (10 : ℚ) ^ d := by positivity
+  have h := round_close' (x * (10 : ℚ) ^ d)
+  unfold fixedValue
+  have e : ((roundHalfEven (x * (10 : ℚ) ^ d) : Int) : ℚ) / (10 : ℚ) ^ d - x
+      = (((roundHalfEven (x * (10 : ℚ) ^ d) : Int) : ℚ) - x * (10 : ℚ) ^ d) / (10 : ℚ) ^ d := by
+    field_simp
+  rw [e, abs_div, abs_of_pos hp, div_le_div_iff₀ hp (by positivity)]
+  calc |((roundHalfEven (x * (10 : ℚ) ^ d) : Int) : ℚ) - x * (10 : ℚ) ^ d| * (2 * (10 : ℚ) ^ d)
+      ≤ (1 / 2) * (2 * (10 : ℚ) ^ d) := by
+        apply mul_le_mul_of_nonneg_right h (by positivity)
+    _ = 1 * (10 : ℚ) ^ d := by ring
+
+/-- box and tick origins printed with `"%i"` are within 1 unit of the number printed in full -/
+theorem truncated_within_one (x : ℚ) : |((truncToZero x : Int) : ℚ) - x| < 1 := C07.trunc_close x
+
+/-- both back-ends truncate the same box origin: the printed origins are equal, the printed size is the node's -/
+theorem same_box (o : ROpt) (n : RNode) :
+    (modelBox o n).ox = (boxOrigin o n).1 ∧ (modelBox o n).oy = (boxOrigin o n).2 ∧
+    (modelBox o n).w = n.w ∧ (modelBox o n).h = n.h := ⟨rfl, rfl, rfl, rfl⟩
+
+/-- per-datum colours: the `rgb(r, g, b)` string of the SVG and the 6-digit code of the TeX colour definition denote
+the same triple (C20) -/
+theorem same_colour (code : List Char) (hash : Bool)
+    (hlen : code.length = 3 ∨ code.length = 6) (hhex : ∀ c ∈ code, C20.IsHex c) :
+    Text.hex2rgb (Text.hex2html ((if hash then ['#'] else []) ++ code))
+      = Text.hex2rgb ((if hash then ['#'] else []) ++ code) :=
+  C20.hex2html_same_colour code hash hlen hhex
+
+/-- label texts: the TeX text reads back as the SVG text up to canonical decomposition of the converted characters (C19) -/
+theorem same_text (db : Text.UDB) (s : List Nat) :
+    (Text.uni2texToks db s).flatMap Text.readBack = s.flatMap (Text.oneStep db) :=
+  C19.readBack_eq_oneStep db s
+
+/-- per-label macro names never collide (C20), so every label keeps its own colour and text -/
+theorem distinct_names (i j : Nat) (h : Text.int2name i = Text.int2name j) : i = j :=
+  C20.int2name_injective i j h
+
+example : fixedValue 6 (1 / 3) = 333333 / 1000000 := by decide +kernel
 
 end Labella.C09
